@@ -83,6 +83,17 @@ pub fn run_conv(out: &mut Out, seed: u64, random: u64) {
             if !ok { out.finding("conversion", "num", x, &ph, &format!("Integer({}) (the expression is the identity on Integers)", n), &o.show(), json!({})); }
         }
     }
+    // exact Integer results at the ends of the range: nothing on the way may pass through a double (a - b is not a + (-b) there)
+    for (x, n, want) in [("-1-@", i64::MIN, i64::MAX), ("@-@", i64::MIN, 0), ("-2-@", i64::MIN, i64::MAX - 1), ("@-(-1)", i64::MAX - 1, i64::MAX), ("-1-(@)", i64::MIN, i64::MAX),
+                         ("@+1-1", i64::MAX - 1, i64::MAX - 1), ("-@-1", i64::MAX, i64::MIN), ("@*1-@", i64::MIN, 0), ("0-@", i64::MIN + 1, i64::MAX), ("@/1", i64::MIN, i64::MIN),
+                         ("@%@", i64::MIN, 0), ("-(@+1)", i64::MIN, i64::MAX), ("abs(@+1)", i64::MIN, i64::MAX), ("@^1", i64::MIN, i64::MIN), ("max(@,-1)-@", i64::MIN, i64::MAX)] {
+        let ph = Val::N(Number::Integer(n));
+        let (o, _) = crate::call::call("num", x, &ph);
+        out.stats.calls += 1;
+        let key = h64(&("exactend", x, n)); out.stats.distinct.insert(key); out.stats.nontrivial.insert(key);
+        let ok = matches!(&o, crate::val::Outcome::Ok(Val::N(Number::Integer(m))) if *m == want);
+        if !ok { out.finding("conversion", "num", x, &ph, &format!("Integer({}) (the exact result fits i64: no operand may be converted on the way)", want), &o.show(), json!({})); }
+    }
     // whole-number Floats outside the i64 range stay the Floats they are through every expression that is the identity on them
     // (an exact integer detour - i128 sums, casts - wraps or saturates there)
     for f in [9223372036854775808.0f64, 18446744073709551616.0, -18446744073709551616.0, 1e30, -1e30, 9.3e18, 1.7e38, 3.5e38, -9223372036854777856.0] {
